@@ -171,7 +171,7 @@ def run(ctx):
             dist = np.asarray(fitter.models.distances.to(u.kpc).value, float)
             logm = fitcheck.grid_logm(conv, aps, theta, dist)
             logd = np.log10(dist)
-        delta = 3e-7 * (1 + float(np.max(np.abs(np.asarray(logm, float))))) if (memmap and is_v2) else 0.0
+        delta = 3e-7 * (1 + float(np.max(np.abs(np.asarray(logm, float))))) if fitcheck.holds_float32(fitter) else 0.0
         for isrc in range(n_src):
             m0 = int(rng.choice([m for m in range(n_models) if m not in zero_models]))
             a0 = float(rng.uniform(0, 12))
